@@ -21,11 +21,11 @@ BOUNDS = (
     "Transposition: every array .T.copy(), positions (x,y)->(y,x), aperture theta -> pi/2 - theta. "
     "APIs x configurations per (scene, transform): aperture_photometry (6 aperture shapes x "
     "exact/center/subpixel, with mask+error, at the 6 source centres + 5 lattice points incl. apertures flush "
-    "with the frame edge and pixel centres exactly on the aperture boundary), ApertureMask bbox/data, ApertureStats (3 aperture shapes x {plain, sigma_clip, "
-    "local_bkg+mask+error}, 28 properties), find_peaks (4 configs incl. noise-level threshold, footprint, mask, "
+    "with the frame edge and pixel centres exactly on the aperture boundary), ApertureMask bbox/data, ApertureStats (5 configs over circle/ellipse/annuli: plain, sigma_clip, "
+    "center sum, local_bkg+mask+error+subpixel; 46 outputs each), find_peaks (4 configs incl. noise-level threshold, footprint, mask, "
     "centroid_func, npeaks), DAOStarFinder (4 configs incl. elliptical kernel, xycoords and a noise-level threshold giving >100 "
     "detections), IRAFStarFinder (3), StarFinder (3), detect_sources (3 configs), deblend_sources (3 modes), SourceCatalog (3 configs: plain; "
-    "error+mask+background+convolved_data; localbkg_width+kron_params; 60 columns incl. windowed/quadratic "
+    "error+mask+background+convolved_data; localbkg_width+kron_params; ~80 outputs incl. windowed/quadratic "
     "centroids, Kron, fluxfrac_radius, circular_photometry, moments), RadialProfile and CurveOfGrowth (3 centres x "
     "{exact, center} with mask+error), make_model_image (Gaussian2D rotated + CircularGaussianPRF, model_shape and "
     "bbox_factor, sources inside the frame and flush with its edge; translation only), centroid_sources (com, "
